@@ -11,6 +11,7 @@ import Proofs.C13.Lengths
 import Proofs.C13.FeistelWrong
 import Proofs.C13.ElectrumOld
 import Proofs.C13.ElectrumVersion
+import Proofs.C13.ElectrumSearch
 /-!
 # C13 — mnemonics and seeds: entropy round-trips, checksums bind, thresholds recover (DESIGN.md §3 C13)
 
@@ -275,6 +276,70 @@ theorem electrum_accepted_iff_prefix (digits : List Nat) (n : Nat) :
   mnemonicType_iff digits n
 
 example : mnemonicType false [1, 0, 1, 7] 13 = "" ∧ mnemonicType false [1, 0, 1, 7] 12 = "2fa" := by decide
+
+/-! ## Electrum — the candidate search of `mnemonic_from_entropy`
+
+`electrumGenerate` is `mnemonic_from_entropy(type, entropy, lang)` from the entropy integer on, at word-index level:
+`_search_mnemonic`'s `while True` (self-check, the old-seed and BIP39 skips, the prefix test) and the closing read-back
+`_mnemonic_type(mnemonic) == mnemonic_type`.  The two facts about a candidate that depend on the TEXT of its sentence
+are parameters indexed by the candidate integer: `isOld c` (`_is_old_mnemonic`) and `digits c` (hex digits of
+HMAC-SHA512("Seed version", normalised sentence)); the BIP39 skip (`electrumIsBip39`, Electrum's
+bip39_is_checksum_valid arithmetic over the list's own base) is computed from the indexes, for any hash `H`.
+`fuel` bounds the number of candidates tried (the code has no bound). -/
+
+/-- for EVERY word-list length ≥ 2, entropy integer, type, and whatever the sentences spell: the generator answers
+    candidate `c` exactly when the type is a key of the generated `_MNEMONIC_VERSIONS`, `c` is the LEAST integer above
+    the entropy (the entropy itself is never tried) that is neither a pre-2.0 seed nor a valid BIP39 sentence and whose
+    seed version starts with the type's prefix, and — for "2fa" only — its sentence has 12 or at least 20 words
+    (otherwise the read-back refuses it: "2fa" cannot be generated at 13 words) -/
+theorem electrum_generate_iff_least_qualifying (H : Bytes → Bytes) (isOld : Nat → Bool) (digits : Nat → List Nat)
+    (base : Nat) (hb : 2 ≤ base) (typ : String) (fuel e c : Nat) :
+    electrumGenerate H isOld digits base typ fuel e = .ok c ↔
+      ∃ pre, Gen.Mnemonic.MNEMONIC_VERSIONS.lookup typ = some pre ∧ e < c ∧ c ≤ e + fuel ∧
+        searchQualifies H isOld digits base pre c = true ∧
+        (∀ c', e < c' → c' < c → searchQualifies H isOld digits base pre c' = false) ∧
+        (typ = "2fa" → (electrumIndexes c base).length = 12 ∨ 20 ≤ (electrumIndexes c base).length) :=
+  electrumGenerate_ok_iff H isOld digits base hb typ fuel e c
+
+/-- what it answers is read back as asked: the sentence returned is not a pre-2.0 seed, not a BIP39 sentence, and
+    `_mnemonic_type` (hence `version_from_mnemonic`) gives it the requested type -/
+theorem electrum_generated_reads_back (H : Bytes → Bytes) (isOld : Nat → Bool) (digits : Nat → List Nat)
+    (base : Nat) (hb : 2 ≤ base) (typ : String) (fuel e c : Nat)
+    (h : electrumGenerate H isOld digits base typ fuel e = .ok c) :
+    isOld c = false ∧ electrumIsBip39 H (electrumIndexes c base) base = false ∧
+    mnemonicType (isOld c) (digits c) (electrumIndexes c base).length = typ ∧
+    typ ∈ ["standard", "segwit", "2fa", "2fa_segwit"] := by
+  obtain ⟨pre, hl, _, _, hq, _, h2fa⟩ := (electrumGenerate_ok_iff H isOld digits base hb typ fuel e c).mp h
+  simp only [searchQualifies, Bool.and_eq_true, Bool.not_eq_eq_eq_not, Bool.not_true, searchSkips,
+    Bool.or_eq_false_iff] at hq
+  obtain ⟨⟨hold, hb39⟩, hpre⟩ := hq
+  refine ⟨hold, hb39, ?_, ?_⟩
+  · rw [hold]; exact (readBack_iff typ pre (digits c) _ hl hpre).mpr h2fa
+  · rcases versions_lookup typ pre hl with ⟨rfl, _⟩ | ⟨rfl, _⟩ | ⟨rfl, _⟩ | ⟨rfl, _⟩ <;> simp
+
+/-- the refusals: the self-check of `_search_mnemonic` NEVER fires (any list of ≥ 2 words); an unknown type is refused
+    exactly when it is no key of `_MNEMONIC_VERSIONS`; the search runs out of fuel exactly when no candidate in
+    (entropy, entropy + fuel] qualifies.  (The remaining error, the read-back, is the complement: by
+    `electrum_generate_iff_least_qualifying` a "2fa" found at a word count other than 12 / ≥ 20.) -/
+theorem electrum_generate_refusals (H : Bytes → Bytes) (isOld : Nat → Bool) (digits : Nat → List Nat)
+    (base : Nat) (hb : 2 ≤ base) (typ : String) (fuel e : Nat) :
+    electrumGenerate H isOld digits base typ fuel e ≠ .error .selfcheck ∧
+    (electrumGenerate H isOld digits base typ fuel e = .error .unknownType ↔
+      Gen.Mnemonic.MNEMONIC_VERSIONS.lookup typ = none) ∧
+    (electrumGenerate H isOld digits base typ fuel e = .error .fuel ↔
+      ∃ pre, Gen.Mnemonic.MNEMONIC_VERSIONS.lookup typ = some pre ∧
+        ∀ c', e < c' → c' ≤ e + fuel → searchQualifies H isOld digits base pre c' = false) :=
+  electrumGenerate_error_iff H isOld digits base hb typ fuel e
+
+/-- non-vacuity: base 4, candidates 4..6 without the prefix, 5 a pre-2.0 seed WITH the prefix (skipped), 7 returned;
+    a "2fa" found at 2 words is refused by the read-back; an unknown type is refused -/
+example :
+    electrumGenerate (fun _ => []) (fun c => c == 5) (fun c => if c = 5 ∨ c = 7 then [0, 1, 3] else [9]) 4
+      "standard" 10 3 = .ok 7 ∧
+    electrumGenerate (fun _ => []) (fun _ => false) (fun _ => [1, 0, 1]) 4 "2fa" 10 3 = .error .readBack ∧
+    electrumGenerate (fun _ => []) (fun _ => false) (fun _ => [1, 0, 1]) 4 "2FA" 10 3 = .error .unknownType ∧
+    electrumGenerate (fun _ => []) (fun _ => false) (fun _ => [9]) 4 "segwit" 10 3 = .error .fuel := by
+  decide
 
 /-- Electrum's pre-2.0 codec (`old_mnemonic_from_hex_seed` / `hex_seed_from_old_mnemonic`, three words per 32-bit
     group over the generated `OLD_BASE` = 1626 words): every hex seed of 32-bit groups decodes back to itself; the
